@@ -7,6 +7,7 @@ import (
 	"os"
 	"path/filepath"
 	"sort"
+	"strconv"
 	"strings"
 	"sync"
 	"time"
@@ -247,7 +248,7 @@ func (w *World) VerifyFunc(fn *ssa.Function, fc *FuncContract, timeoutS int) *Fu
 				results[k] = ObResult{Name: it.Name, Desc: "probe", Status: r.Status, Solver: r.Solver, Ms: r.Ms}
 				return
 			}
-			if len(q) > 2_000_000 {
+			if len(q) > maxQuerySize() {
 				results[k] = ObResult{Name: it.Name, Desc: it.Desc, Pos: pos, Status: "oversize", Quant: it.Quant}
 				return
 			}
@@ -408,4 +409,13 @@ func cmdHints() int {
 	}
 	fmt.Printf("%d hints written\n", len(out))
 	return 0
+}
+
+func maxQuerySize() int {
+	if v := os.Getenv("GOVC_MAXQ"); v != "" {
+		if n, err := strconv.Atoi(v); err == nil {
+			return n
+		}
+	}
+	return 2_000_000
 }
